@@ -1028,6 +1028,61 @@ impl Function for Case {
     }
 }
 
+/// CASE whose condition can be NULL: a NULL condition selects the ELSE branch, so the ELSE
+/// type is always part of the image (the generic `Optional` wrapper would read the condition
+/// without its NULL and, for a comparison that is always true on the declared range, keep the
+/// THEN branch only)
+#[derive(Clone, Debug)]
+pub struct NullableCase;
+
+impl fmt::Display for NullableCase {
+    fn fmt(&self, f: &mut fmt::Formatter<'_>) -> fmt::Result {
+        write!(f, "case")
+    }
+}
+
+impl Function for NullableCase {
+    fn domain(&self) -> DataType {
+        DataType::Any
+    }
+
+    fn co_domain(&self) -> DataType {
+        Optional::new(Case).co_domain()
+    }
+
+    fn super_image(&self, set: &DataType) -> Result<DataType> {
+        if let DataType::Struct(struct_data_type) = set {
+            if struct_data_type.fields().len() == 3 {
+                if let DataType::Optional(condition) = struct_data_type.field_from_index(0).1.as_ref()
+                {
+                    if let DataType::Boolean(_) = condition.data_type() {
+                        let not_null = DataType::from(data_type::Struct::from_data_types(&[
+                            condition.data_type().clone(),
+                            struct_data_type.field_from_index(1).1.as_ref().clone(),
+                            struct_data_type.field_from_index(2).1.as_ref().clone(),
+                        ]));
+                        return Ok(Optional::new(Case)
+                            .super_image(&not_null)?
+                            .super_union(struct_data_type.field_from_index(2).1.as_ref())?);
+                    }
+                }
+            }
+        }
+        Optional::new(Case).super_image(set)
+    }
+
+    fn value(&self, arg: &Value) -> Result<Value> {
+        if let Value::Struct(struct_values) = arg {
+            if struct_values.fields().len() == 3
+                && struct_values.field_from_index(0).1.as_ref() == &Value::none()
+            {
+                return Ok(struct_values.field_from_index(2).1.as_ref().clone());
+            }
+        }
+        Optional::new(Case).value(arg)
+    }
+}
+
 // IN (..)
 #[derive(Clone, Debug)]
 pub struct InList(DataType);
@@ -2301,6 +2356,11 @@ pub fn cast_as_time() -> impl Function {
 // Case function
 pub fn case() -> impl Function {
     Case
+}
+
+// Case function reading a NULL condition as SQL does
+pub fn nullable_case() -> impl Function {
+    NullableCase
 }
 
 // In operator
